@@ -204,7 +204,7 @@ def run(argv):
                 elif arg == "-fs":
                     figsize = arg_next
                 elif arg == "-dpi":
-                    dpi = int(arg_next)
+                    dpi = verif.util.parse_int(arg_next)
                 elif arg == "-d":
                     dates = verif.util.parse_numbers(arg_next, True)
                 elif arg == "-tod":
@@ -234,7 +234,7 @@ def run(argv):
                 elif arg == "-agg":
                     aggregator_name = arg_next
                 elif arg == "-aspect":
-                    aspect = float(arg_next)
+                    aspect = verif.util.parse_float(arg_next)
                 elif arg == "-r":
                     thresholds = np.array(verif.util.parse_numbers(arg_next))
                 elif arg == "-q":
@@ -254,33 +254,33 @@ def run(argv):
                 elif arg == "-gc":
                     grid_color = verif.util.parse_colors(arg_next)[0]
                 elif arg == "-gw":
-                    grid_width = float(arg_next)
+                    grid_width = verif.util.parse_float(arg_next)
                 elif arg == "-ma":
                     markers = arg_next.split(',')
                 elif arg == "-tickfs":
-                    tick_font_size = float(arg_next)
+                    tick_font_size = verif.util.parse_float(arg_next)
                 elif arg == "-labfs":
-                    lab_font_size = float(arg_next)
+                    lab_font_size = verif.util.parse_float(arg_next)
                 elif arg == "-legfs":
-                    leg_font_size = float(arg_next)
+                    leg_font_size = verif.util.parse_float(arg_next)
                 elif arg == "-legloc":
                     leg_loc = arg_next.replace('_', ' ')
                 elif arg == "-xrot":
-                    xrot = float(arg_next)
+                    xrot = verif.util.parse_float(arg_next)
                 elif arg == "-yrot":
-                    yrot = float(arg_next)
+                    yrot = verif.util.parse_float(arg_next)
                 elif arg == "-bottom":
-                    bottom_padding = float(arg_next)
+                    bottom_padding = verif.util.parse_float(arg_next)
                 elif arg == "-top":
-                    top_padding = float(arg_next)
+                    top_padding = verif.util.parse_float(arg_next)
                 elif arg == "-right":
-                    right_padding = float(arg_next)
+                    right_padding = verif.util.parse_float(arg_next)
                 elif arg == "-left":
-                    left_padding = float(arg_next)
+                    left_padding = verif.util.parse_float(arg_next)
                 elif arg == "-pad":
                     Pad = arg_next
                 elif arg == "-titlefs":
-                    title_font_size = float(arg_next)
+                    title_font_size = verif.util.parse_float(arg_next)
                 elif arg == "-cmap":
                     cmap = arg_next
                 elif arg == "-maptype":
@@ -296,7 +296,7 @@ def run(argv):
                 elif arg == "-m":
                     metric = arg_next
                 elif arg == "-T":
-                    dim_agg_length = int(arg_next)
+                    dim_agg_length = verif.util.parse_int(arg_next)
                 elif arg == "-Tagg":
                     dim_agg_method = verif.aggregator.get(arg_next)
                 elif arg == "-Tx":
@@ -305,7 +305,7 @@ def run(argv):
                 elif arg == "-af":
                     annotation_format = arg_next.split(',')
                 elif arg == "-afs":
-                    annotation_font_size = float(arg_next)
+                    annotation_font_size = verif.util.parse_float(arg_next)
                 elif arg == "--config":
                     pass
                 else:
